@@ -14,6 +14,7 @@
 import Y0.Lemmas.LatentOfMG
 import Y0.Lemmas.LatentSimplify
 import Y0.Lemmas.LatentEvans
+import Y0.Lemmas.LatentSepRule1
 
 namespace Y0.LV
 open MG
@@ -157,6 +158,35 @@ theorem simplify_idem (prime : Nat → Nat) (hp : ∀ n, n < prime n) (D : LV) (
   obtain ⟨ls, hls⟩ := iterLatents_total r.graph w a
   exact simplify_fixed prime r.graph w s ls hls
 
+/-! ## 2b. separation among observed nodes INSIDE the LV-DAG is unchanged
+
+`D.DConn Z a b` is d-connection of `a` and `b` given `Z` in the directed graph `D` (latents included),
+in the walk formulation of Spec/LatentSpec.lean: colliders must be in `Z` or have a descendant in `Z`,
+other inner nodes must be outside `Z`. -/
+
+/-- **Separation invariant.** For all observed `a ≠ b` and every conditioning set of observed nodes,
+`a` and `b` are d-connected given `Z` in the simplified DAG iff they are in the original DAG. -/
+theorem simplify_dsep_invariant (prime : Nat → Nat) (hp : ∀ n, n < prime n) (D : LV) (hw : D.WF)
+    (ha : D.Acyclic) (r : SimplifyResults) (h : D.simplify prime = .ok r) (Z : Nat → Prop) (a b : Nat)
+    (hZ : ∀ z, Z z → D.Observed z) (hoa : D.Observed a) (hob : D.Observed b) (hab : a ≠ b) :
+    r.graph.DConn Z a b ↔ D.DConn Z a b :=
+  simplify_sameSep' prime hp D hw ha r h Z a b hZ hoa hob hab
+
+theorem rule1_exogenise_sameSep (prime : Nat → Nat) (hp : ∀ n, n < prime n) (D D1 : LV) (hw : D.WF)
+    (ha : D.Acyclic) (h : D.transformLatentsWithParents prime = .ok D1) : SameSep D D1 :=
+  transform_sameSep prime hp D D1 hw ha h
+
+theorem rule2_widows_sameSep (D : LV) (S : List Nat) (hS : ∀ s ∈ S, s ∈ D.latent)
+    (hW : ∀ s ∈ S, ∀ c, ¬ D.Edge s c) : SameSep D (D.removeNodes S) :=
+  removeWidows_sameSep D S hS hW
+
+/-- rules 3 and 4: on a flat graph, latents all of whose pairs of children are covered by a surviving
+latent (vacuous for a single-child latent) can be removed -/
+theorem rule34_flat_sameSep (D : LV) (hf : D.Flat) (S : List Nat) (hS : ∀ s ∈ S, s ∈ D.latent)
+    (hcover : ∀ s ∈ S, ∀ u w, u ≠ w → D.Edge s u → D.Edge s w →
+      ∃ r, r ∈ D.latent ∧ r ∉ S ∧ D.Edge r u ∧ D.Edge r w) : SameSep D (D.removeNodes S) :=
+  removeLatents_sameSep_flat D hf S hS hcover
+
 /-! ## 3. `evans_simplify` (ADMG → LV-DAG, mark extra latents, simplify, read back) -/
 
 /-- `evans_simplify(G, latents=extra)` never raises on an acyclic mixed graph and returns the latent
@@ -201,5 +231,11 @@ example :
     ((exampleDag.simplify (· + 100)).toOption.map (fun r => r.graph.toMG?.toOption.map
         (fun G => (G.nodes, G.di, G.bi)))) =
       some (some ([1, 2, 3, 4], [(1, 2), (1, 3), (1, 4)], [(2, 3), (2, 4), (3, 4)])) := by decide
+
+/-- non-vacuity of the separation clause: in `exampleDag`, `2` and `3` are d-connected given `∅`
+(walk `2 ← 10 → 11 → 3` through two latents) and `1`, `4` are d-connected given `∅` -/
+example : exampleDag.DConn (fun _ => False) 2 3 :=
+  ⟨true, .chainDown (.fork (.startUp (p := 10) (by unfold Edge; decide)) (fun h => h) (c := 11)
+    (by unfold Edge; decide)) (fun h => h) (c := 3) (by unfold Edge; decide)⟩
 
 end Y0.LV
